@@ -986,6 +986,9 @@ package gorums
 //@   ghost sawUp Bool = false
 //@   ghost sawEst Bool = false
 //@   ghost sawNB Bool = false
+//@   ghost readBrk Bool = false
+//@   ghost lastBrk Bool = false
+//@   ghost nsendAttempt Int = 0
 //@   ghost drained Bool = false
 //@   ghost cur request = zero("request")
 //@   loop "for {"
@@ -998,6 +1001,9 @@ package gorums
 //@     set sawUp = false
 //@     set sawEst = false
 //@     set sawNB = false
+//@     set readBrk = false
+//@     set lastBrk = false
+//@     set nsendAttempt = 0
 //@     set cur = r
 //@   on call? "c.isConnected"
 //@     after set sawUp = res0
@@ -1005,6 +1011,8 @@ package gorums
 //@     after set sawEst = res0
 //@   on call? "c.streamBroken.get"
 //@     after set sawNB = sawNB || !res0
+//@     after set lastBrk = res0
+//@     after set readBrk = true
 //@   on call "c.failQueued"
 //@     assert[C12.d] !pending && nolocks()
 //@     after set drained = true
@@ -1016,10 +1024,13 @@ package gorums
 //@   on call "c.routeResponse"
 //@     assert[C07.b] pending && arg0 == cur.msg.Metadata.MessageID && arg1.nid == c.node.id && arg1.err != nil && arg1.msg == nil
 //@     assert[C06.f,C10.b] tried || sawUp || (sawEst && sawNB)
+//@     assert[C07.f] arg1.err == streamDownErr && nsendAttempt == 0 ==> readBrk && lastBrk
 //@     set pending = false
 //@   on call "c.sendMsg"
 //@     assert[C03.b] pending && arg0 == cur
 //@     assert[C06.f,C10.b] tried || sawUp || (sawEst && sawNB)
+//@     assert[C07.f] readBrk ==> !lastBrk
+//@     set nsendAttempt = nsendAttempt + 1
 //@     after set pending = pending && res0 != nil
 //@   blocks until c.parentCtx
 //@   opt effect-tags=C12.a
@@ -1068,6 +1079,8 @@ package gorums
 //@   ghost cleared Bool = false
 //@   ghost estab Bool = false
 //@   ghost streamOK Bool = false
+//@   ghost wasEstab Bool = false
+//@   ghost madeClient Bool = false
 //@   on call "c.gorumsClient.NodeStream"
 //@     assert[C10.c] ctxParent(arg0) == c.parentCtx && held(c.streamMut)
 //@   on go "c.receiver"
@@ -1079,11 +1092,16 @@ package gorums
 //@     set cleared = true
 //@   on call "c.connEstablished.set"
 //@     set estab = true
+//@   on call "c.connEstablished.get"
+//@     after set wasEstab = res0
+//@   on store "channel.gorumsClient"
+//@     set madeClient = true
 //@   on call "c.gorumsClient.NodeStream"
 //@     after set streamOK = res1 == nil
 //@   ensures[C10.a] conn == nil ==> result != nil
 //@   ensures[C10.e] result == nil ==> cleared && streamOK
 //@   ensures[C10.e] result != nil ==> !cleared && nrecv == 0
+//@   ensures[C10.e] result == nil ==> madeClient && (wasEstab || nrecv == 1)
 //@   ensures[C03.b] nrecv <= 1
 
 //@ func (*channel).reconnect
@@ -1136,6 +1154,7 @@ package gorums
 //@   ghost nset Int = 0
 //@   ghost needRc Bool = false
 //@   ghost rc Bool = false
+//@   ghost streamMade Bool = false
 //@   on call "c.connEstablished.get"
 //@     after set estab = res0
 //@   on call "c.node.dial"
@@ -1145,6 +1164,7 @@ package gorums
 //@   on call "c.newNodeStream"
 //@     assert[C10.e] !estab && dialed && arg0 == c.node.conn
 //@     after set failed = res0 != nil
+//@     after set streamMade = true
 //@   on call "c.streamBroken.set"
 //@     assert[C10.e] failed
 //@     set nset = nset + 1
@@ -1156,8 +1176,7 @@ package gorums
 //@   ensures[C10.e] result != nil <==> failed
 //@   ensures[C10.e] failed ==> nset == 1
 //@   ensures[C10.e] result == nil && needRc ==> rc
-//@   ensures[C10.e] !estab && result == nil ==> dialed
-//@   opt optional-hooks=0
+//@   ensures[C10.e] !estab && result == nil ==> dialed && streamMade
 
 //@ func newChannel
 //@   props C03 C10 C12
@@ -1221,10 +1240,12 @@ package gorums
 //@   props C03 C04 C10
 //@   nopanic C04
 //@   requires s != nil && s.opts != nil && srv != nil
+//@   requires forall(k, "Str", in(k, s.handlers) ==> s.handlers[k] != nil)
 //@   ghost started Int = 0
 //@   ghost awaited Int = 0
 //@   ghost callbacks Int = 0
 //@   ghost recvs Int = 0
+//@   ghost recvFailed Bool = false
 //@   ghost handed (Array Int Bool) = constarr("Int", false)
 //@   on call "s.opts.connectCallback"
 //@     assert[C10.d] callbacks == 0 && recvs == 0 && arg0 == srvCtx(srv)
@@ -1236,9 +1257,13 @@ package gorums
 //@   on call "srv.RecvMsg"
 //@     assert[C04.a] started == awaited && heldobj(addr(mut))
 //@     after set recvs = recvs + 1
+//@     after set recvFailed = res0 != nil
+//@   on return
+//@     assert[C04.g] recvFailed
 //@   on go "handler"
 //@     assert[C04.a,C03.c] started == awaited && heldobj(addr(mut)) && arg1 == req && arg2 == finished
 //@     assert[C04.f,C05.e] !wasalloc(finished)
+//@     assert[C04.g] !recvFailed && in(req.Metadata.Method, s.handlers)
 //@     assert[C04.b] fresh(arg0.once) && arg0.mut == addr(mut) && arg0.Context == srvCtx(srv)
 //@     assert[C04.d] arg1 != nil && !handed[arg1]
 //@     set handed = store(handed, arg1, true)
@@ -1450,13 +1475,18 @@ package gorums
 //@     assert[C15.f] held(n.connMu) && !wasClosed
 //@   ensures[C12.f] wasClosed ==> ndial == 0 && result != nil
 //@   ensures[C18.c] !wasClosed ==> ndial == 1 && n.conn == dialed
+//@   ensures[C18.c] !wasClosed && old(n.conn) != nil ==> closedOld
 //@   opt optional-hooks=1
 
 //@ func (*RawNode).connect
 //@   props C14 C12
 //@   requires n != nil && mgr != nil
+//@   ghost cerr Iface = nilI()
 //@   on call "newChannel"
 //@     assume streamDownErr != nil
+//@   on call "n.channel.connect"
+//@     after set cerr = res0
+//@   ensures[C12.a] !mgr.opts.noConnect ==> (result != nil <==> cerr != nil)
 //@   ensures n.mgr == mgr && n.id == old(n.id) && n.addr == old(n.addr)
 //@   ensures[C12.a] mgr.opts.noConnect ==> result == nil && n.channel == old(n.channel)
 //@   ensures[C12.a] !mgr.opts.noConnect ==> n.channel != nil && n.channel.node == n
@@ -1805,22 +1835,30 @@ package gorums
 //@   props C04 C03 C05
 //@   ghost pend Bool = false
 //@   ghost cur Int = 0
+//@   ghost writeFailed Bool = false
+//@   ghost sawDone Bool = false
 //@   loop "for {"
-//@     invariant[C04.e] !pend
+//@     invariant[C04.e] !pend && !writeFailed && !sawDone
 //@   on recv "finished" as m
 //@     set pend = true
 //@     set cur = m
 //@   on call "srv.SendMsg"
 //@     assert[C04.e] pend && arg0 == iface("*Message", cur)
 //@     set pend = false
+//@     after set writeFailed = res0 != nil
+//@   on recv "ctx.Done()"
+//@     set sawDone = true
 //@   on return
 //@     assert[C04.e] !pend
+//@     assert[C04.e] sawDone || writeFailed
 //@   blocks until ctx
 //@   opt external-ok=SendMsg
 
 //@ func (*Server).RegisterHandler
 //@   props C04 C17
-//@   requires s != nil && s.srv != nil && s.srv.handlers != nil
+//@   requires s != nil && s.srv != nil && s.srv.handlers != nil && handler != nil
+//@   requires forall(k, "Str", in(k, s.srv.handlers) ==> s.srv.handlers[k] != nil)
+//@   ensures[C04.g] forall(k, "Str", in(k, s.srv.handlers) ==> s.srv.handlers[k] != nil)
 //@   ensures[C17.a] in(method, s.srv.handlers) && forall(k, "Str", k != method ==> (in(k, s.srv.handlers) <==> old(in(k, s.srv.handlers))))
 
 // Package-level variables the contracts read as constants: assigned by the package initialiser only.
